@@ -212,6 +212,39 @@ static void check_triple(const SupC &c, vf::Obs &o) {
   VCHECK(o, same(li, inter(inter(w1, w2), w3)), "triple intersection wrong");
 }
 
+// moved-from supports (move construction and move assignment) are empty supports like any other, and the moved-to
+// object is the former window: equality, union, intersection and the accessors must not be able to tell the difference
+static void check_moved(const SupC &c, vf::Obs &o) {
+  size_t n = (size_t)c.n;
+  Grd g(pts(n));
+  W w1{c.s1, c.e1}, w2{c.s2, c.e2};
+  bool eqc = true;
+  Grd g2 = other_grid(g, n, c.gridmode <= 1 ? c.gridmode : 1, eqc);  // shared instance or equal grid in a distinct object
+  o.nt(true);
+  Sup src(g, (size_t)w1.s, (size_t)w1.e);
+  Sup dst(std::move(src));                                   // move construction
+  Sup src2(g2, (size_t)w2.s, (size_t)w2.e), dst2(g, 0, 0);
+  dst2 = std::move(src2);                                    // move assignment
+  Sup fresh1(g, (size_t)w1.s, (size_t)w1.e), fresh2(g2, (size_t)w2.s, (size_t)w2.e), empty(Sup::createEmpty(g)), empty2(Sup::createEmpty(g2));
+  VCHECK(o, dst == fresh1 && fresh1 == dst && !(dst != fresh1), "move-constructed support is not equal to the window it was moved from");
+  VCHECK(o, dst2 == fresh2 && fresh2 == dst2, "move-assigned support is not equal to the window it was moved from");
+  for (const Sup *m : {&src, &src2}) {
+    VCHECK(o, support_invariant(*m).empty(), "moved-from support invalid: " << support_invariant(*m));
+    VCHECK(o, m->empty() && m->size() == 0 && m->numberOfIntervals() == 0 && m->begin() == m->end(), "moved-from support is not empty");
+    VCHECK(o, *m == empty && empty == *m && *m == empty2 && !(*m != empty), "moved-from support is not equal to an empty support on an equal grid");
+    VCHECK(o, *m == *m, "moved-from support not equal to itself");
+    VCHECK(o, m->calcUnion(*m) == *m && m->calcIntersection(*m) == *m, "union / intersection of a moved-from support with itself is not itself");
+    VCHECK(o, m->calcUnion(fresh1) == fresh1 && fresh1.calcUnion(*m) == fresh1, "union with a moved-from support is not the other operand");
+    VCHECK(o, m->calcIntersection(fresh1) == empty && fresh1.calcIntersection(*m).empty(), "intersection with a moved-from support is not empty");
+    { Sup i = fresh1.calcIntersection(Sup(g, 0, 1).calcIntersection(Sup(g, n - 1, n))); VCHECK(o, *m == i, "moved-from support differs from an empty intersection result"); }
+    VCHECK(o, !m->relativeFromAbsolute(0).has_value() && !m->intervalIndexFromAbsolute(0).has_value() && !m->relativeFromAbsolute((size_t)w1.s).has_value(), "moved-from support contains an index");
+    bool threw = false;
+    try { (void)m->front(); } catch (const BSplineException &) { threw = true; }
+    VCHECK(o, threw, "front() of a moved-from support did not throw");
+  }
+  VCHECK(o, src == src2 && src2 == src, "two moved-from supports (from different windows) compare unequal");
+}
+
 static std::vector<W> windows(i64 n) {
   std::vector<W> v{{0, 0}};
   for (i64 s = 0; s < n; s++)
@@ -274,6 +307,19 @@ int main(int argc, char **argv) {
               }
       },
       [](const std::string &t, vf::Obs &o) { check_triple(vf::from_text<SupC>(t), o); });
+  vf::add_enum_sub(
+      "enum-moved",
+      [guarded](vf::Sub &s, double) {
+        for (i64 n = 2; n <= std::min<i64>(g_maxn, 7); n++)
+          for (W w1 : windows(n))
+            for (W w2 : windows(n))
+              for (i64 gm = 0; gm <= 1; gm++) {
+                SupC c; c.n = n; c.s1 = w1.s; c.e1 = w1.e; c.s2 = w2.s; c.e2 = w2.e; c.gridmode = gm;
+                vf::Obs o; guarded(check_moved, c, o);
+                if (!vf::emit(s, vf::to_text(c), o)) return;
+              }
+      },
+      [](const std::string &t, vf::Obs &o) { check_moved(vf::from_text<SupC>(t), o); });
   auto gen = rc::gen::exec([] {
     SupC c;
     c.n = chance(30) ? pick(2, 12) : pick(13, 200);
@@ -286,5 +332,6 @@ int main(int argc, char **argv) {
   vf::add_sub<SupC>("random-single", 300, gen, check_single);
   vf::add_sub<SupC>("random-pairs", 3000, gen, check_pair);
   vf::add_sub<SupC>("random-triples", 3000, gen, check_triple);
+  vf::add_sub<SupC>("random-moved", 1000, gen, check_moved);
   return vf::main_impl(argc, argv, "C13", true);
 }
